@@ -74,7 +74,9 @@ def _func_table(R, table, flavour, only):
     b = util.get_binsize(df)
     b = None if b is None else int(b)
     coff = np.array(models.ref_indptr([names.index(x[0]) for x in bins], len(names)), dtype=np.int64)
-    grp = {"indexes": {"chrom_offset": coff}, "bins": {"start": np.array([x[1] for x in bins], dtype=np.int64)}}
+    grp = {"indexes": {"chrom_offset": coff}, "bins": {"start": np.array([x[1] for x in bins], dtype=np.int64), "end": np.array([x[2] for x in bins], dtype=np.int64),
+                    "chrom": np.array([names.index(x[0]) for x in bins], dtype=np.int32)},
+           "chroms": {"length": np.array([max(x[2] for x in bins if x[0] == nm) for nm in names], dtype=np.int64)}}
     ids = {nm: k for k, nm in enumerate(names)}
     sizes = models.ref_chromsizes(bins)
     cs = pd.Series([sizes[nm] for nm in names], index=names)
@@ -315,7 +317,9 @@ def _binsizes(R, unit, only):
             R.mismatch("get_binsize(binnified-table)", inner, f"{bs}")
             continue
         coff = np.array(models.ref_indptr([names.index(x[0]) for x in bins], len(names)), dtype=np.int64)
-        grp = {"indexes": {"chrom_offset": coff}, "bins": {"start": np.array([x[1] for x in bins], dtype=np.int64)}}
+        grp = {"indexes": {"chrom_offset": coff}, "bins": {"start": np.array([x[1] for x in bins], dtype=np.int64), "end": np.array([x[2] for x in bins], dtype=np.int64),
+                    "chrom": np.array([names.index(x[0]) for x in bins], dtype=np.int32)},
+           "chroms": {"length": np.array([max(x[2] for x in bins if x[0] == nm) for nm in names], dtype=np.int64)}}
         ids = {nm: k for k, nm in enumerate(names)}
         L = sizes[1][1]
         pts = sorted({p for m in range(0, 42) for p in (m * b - 1, m * b, m * b + 1) if 0 <= p <= L} | {L})
